@@ -1,8 +1,8 @@
-SPECIFICATION GenSpec
+SPECIFICATION TSpec
 CONSTANTS
   PathVars = 2
   QueryParams = 8
   BodyLeaves = 12
-  Radius = 1
-INVARIANTS Emit
+  Radius = 2
+INVARIANTS Report
 CHECK_DEADLOCK FALSE
